@@ -6,9 +6,11 @@
   with presence and absence proofs, completeness check, `compute_tree_size`, lumina's `validate_shape` wrapper).
   Spec: `Lumina/Spec/C06.lean` (brute-force scan of the square; model-free).
   Soundness is proved at full strength under the idealised hash (`HashOK`) and in "sound or explicit collision" form.
-  Completeness is PARTIAL (see `FullCompleteness` below).
+  Completeness (`FullCompleteness`) is proved in full (`nsdata_complete`), on top of the multi-leaf range-proof
+  completeness of `Proofs/NmtMulti*.lean`.
 -/
 import Lumina.Proofs.NsData
+import Lumina.Proofs.NmtMultiNsData
 import Lumina.Props.C04
 import Lumina.Gen.C06
 
@@ -125,20 +127,22 @@ theorem row_nsdata_sound {H : HashFn} (hk : HashOK H) {e : Eds} (hsq : SquareSha
                 simp [hne', hab', hc'] at hvc
       simp [accepted, specRow, hrow, hcov', hempty]
 
-/-- The full completeness statement of the property (NOT proved in full; see `nsdata_complete_partial`). -/
+/-- The full completeness statement of the property: on every valid square of width at most 65535 (`square_width` is a
+    `u16`; `NamespaceData::verify` itself refuses more row roots) `get_namespace_data` never fails, returns exactly the
+    brute-force scan of the square, and `NamespaceData::verify` accepts it.  The idealised-hash hypothesis is needed only
+    for "returns exactly the scan" (a row root that collides with `EMPTY_ROOT` is reported as not containing anything
+    by `NamespacedHash::contains`); producing the data and accepting it need no hypothesis on the hash
+    (`nsdata_get_verifies`).  Proved: `nsdata_complete`. -/
 def FullCompleteness : Prop :=
-  ∀ (H : HashFn) (e : Eds) (dah : Dah) (ns : Bytes), HashLen H → SquareShape e → Dah.ofEds H e = .ok dah →
-    ns.length = NS_SIZE →
+  ∀ (H : HashFn) (e : Eds) (dah : Dah) (ns : Bytes), HashOK H → SquareShape e → e.width ≤ 65535 →
+    Dah.ofEds H e = .ok dah → ns.length = NS_SIZE →
     ∃ rows, getNamespaceData H e ns dah = .ok rows ∧
       specHonest e.width (rawSquare e) ns (rows.map (fun p => (p.1, p.2.shares.map Share.data)))
         (accepted (verify H (rows.map Prod.snd) ns dah)) = true
 
-/-- **Completeness, proved part**: whatever `get_namespace_data` returns equals the brute-force scan of the square
-    (the rows whose root range covers the namespace, in order, with exactly the namespace's shares).
-    MISSING for `FullCompleteness`: (i) `get_namespace_data` never fails on a valid square and (ii) `NamespaceData::verify`
-    accepts its output.  Both need completeness of MULTI-leaf range proofs (`build_range_proof` ⇒ `check_range_proof`), which
-    is proved here only for single-leaf ranges (`range_single_complete`); both are exercised on every run by the
-    correspondence (`get` ops: real `get_namespace_data` + `verify`, compared with the model and checked by `specHonest`). -/
+/-- **Completeness, first part** (kept from the earlier partial result; used by `nsdata_complete`): whatever
+    `get_namespace_data` returns equals the brute-force scan of the square (the rows whose root range covers the
+    namespace, in order, with exactly the namespace's shares). -/
 theorem nsdata_complete_partial {H : HashFn} (hk : HashOK H) {e : Eds} (hsq : SquareShape e) {dah : Dah}
     (hd : Dah.ofEds H e = .ok dah) {ns : Bytes} (hns : ns.length = NS_SIZE)
     {rows : List (Nat × RowNsData)} (hget : getNamespaceData H e ns dah = .ok rows) :
@@ -167,6 +171,37 @@ theorem nsdata_complete_partial_or_collision {H : HashFn} (hl : HashLen H) {e : 
     obtain ⟨x, y, h1, h2⟩ := this
     exact ⟨x, y, h2, h1⟩
 
+/-- **Completeness, second part — no hypothesis on the hash**: on a square whose DAH exists (every axis namespace-ordered),
+    with shares of at least 29 bytes and width ≤ 65535, `get_namespace_data` never fails and `NamespaceData::verify`
+    accepts what it returns.  Rests on the completeness of MULTI-leaf range proofs for arbitrary tree sizes
+    (`NmtMulti.range_complete`: `build_range_proof` ⇒ `check_range_proof` with the tree size that `compute_tree_size`
+    derives, which need not be the real one), presence and absence proofs, nmt-rs' completeness check and lumina's
+    `validate_shape`. -/
+theorem nsdata_get_verifies {H : HashFn} {e : Eds} (hsq : SquareShape e) (hw : e.width ≤ 65535) {dah : Dah}
+    (hd : Dah.ofEds H e = .ok dah) {ns : Bytes} (hns : ns.length = NS_SIZE) :
+    ∃ rows, getNamespaceData H e ns dah = .ok rows ∧ accepted (verify H (rows.map Prod.snd) ns dah) = true := by
+  obtain ⟨rows, hget, hv⟩ := Lumina.Proofs.NmtMulti.getNamespaceData_complete hd hsq.size hw hns
+  exact ⟨rows, hget, by rw [hv]; rfl⟩
+
+/-- **Completeness of namespace data, full statement** (`FullCompleteness`) -/
+theorem nsdata_complete : FullCompleteness := by
+  intro H e dah ns hk hsq hw hd hns
+  obtain ⟨rows, hget, hacc⟩ := nsdata_get_verifies hsq hw hd hns
+  refine ⟨rows, hget, ?_⟩
+  have hdat := nsdata_complete_partial hk hsq hd hns hget
+  simp [specHonest, hacc, hdat]
+
+/-- full completeness in reduction form (satisfiable by real hashes): complete, or the hash has an explicit collision -/
+theorem nsdata_complete_or_collision {H : HashFn} (hl : HashLen H) {e : Eds} (hsq : SquareShape e) (hw : e.width ≤ 65535)
+    {dah : Dah} (hd : Dah.ofEds H e = .ok dah) {ns : Bytes} (hns : ns.length = NS_SIZE) :
+    (∃ rows, getNamespaceData H e ns dah = .ok rows ∧
+      specHonest e.width (rawSquare e) ns (rows.map (fun p => (p.1, p.2.shares.map Share.data)))
+        (accepted (verify H (rows.map Prod.snd) ns dah)) = true) ∨ ∃ x y, x ≠ y ∧ H x = H y := by
+  obtain ⟨rows, hget, hacc⟩ := nsdata_get_verifies hsq hw hd hns
+  rcases nsdata_complete_partial_or_collision hl hsq hd hns hget with hdat | hcol
+  · exact Or.inl ⟨rows, hget, by simp [specHonest, hacc, hdat]⟩
+  · exact Or.inr hcol
+
 /-! ### Non-vacuity (concrete 2×2 square of 512-byte shares, toy 32-byte hash from `Props/C04`) -/
 
 open Lumina.Props.C04 (toyH32 okEds okDah nonvacuity_okEds_valid nonvacuity_toyH32_len)
@@ -177,15 +212,16 @@ def okRows : List (Nat × RowNsData) :=
   | .ok r => r
   | .error _ => []
 
-/-- the hypotheses other than `HashOK` hold of a concrete square, and its own namespace data is produced and accepted -/
+/-- the hypotheses other than `HashOK` hold of a concrete square (`SquareShape`, width 2 ≤ 65535, DAH exists, 29-byte
+    namespace), and its own namespace data is produced and accepted -/
 theorem nonvacuity_okEds_shape : SquareShape okEds :=
   ⟨nonvacuity_okEds_valid.flags, fun sh hm => by rw [nonvacuity_okEds_valid.size sh hm]; decide⟩
 
 set_option maxRecDepth 40000 in
-example : HashLen toyH32 ∧ Dah.ofEds toyH32 okEds = .ok okDah ∧ ns0.length = NS_SIZE ∧ okRows.length = 1 ∧
+example : HashLen toyH32 ∧ okEds.width ≤ 65535 ∧ Dah.ofEds toyH32 okEds = .ok okDah ∧ ns0.length = NS_SIZE ∧ okRows.length = 1 ∧
     (∀ d ∈ okRows.map Prod.snd, ProofOK d.proof) ∧
     accepted (verify toyH32 (okRows.map Prod.snd) ns0 okDah) = true := by
-  refine ⟨nonvacuity_toyH32_len, rfl, rfl, by decide, ?_, by decide⟩
+  refine ⟨nonvacuity_toyH32_len, by decide, rfl, rfl, by decide, ?_, by decide⟩
   have h : (okRows.map Prod.snd).all (fun d =>
       d.proof.siblings.all (fun x => decide x.WF) &&
       (match d.proof.leaf with | some l => decide l.WF | none => true) &&
